@@ -2,7 +2,7 @@
     Property theorems only; each is closed by [exact] of a lemma from DDBvProofs.v / DDProofs.v.
     M = DDModel.v / DDBvModel.v (hfiledd.c, bitvect.c as the code performs them), S = DDSpec.v (finite map). *)
 From Coq Require Import ZArith List Bool Permutation Lia.
-Require Import H4.gen.Gen_DD H4.DDBvModel H4.DDBvProofs H4.DDSpec H4.DDModel H4.DDProofs.
+Require Import H4.gen.Gen_DD H4.DDBvModel H4.DDBvProofs H4.DDSpec H4.DDModel H4.DDProofs H4.DDInvProofs.
 Import ListNotations.
 Local Open Scope Z_scope.
 
@@ -68,17 +68,35 @@ Theorem htagnewref_fresh : forall st t st' v, tree_bits_ok st -> htagnewref st t
 Proof. exact htagnewref_fresh_lemma. Qed.
 Print Assumptions htagnewref_fresh.
 
-(** dir_refines_map, PARTIAL.  Full statement (not proved here):
-      for every history h and every ndds >= MIN_NDDS, running h through m_step from (OOpen ndds) and through
-      s_step from s_init yields, operation by operation, equal results (lists up to order, fresh refs accepted)
-      as long as S is inside its domain, and [inv st /\ Permutation (abs st) s] holds after every operation.
-    Proved: in every state satisfying the invariant [inv] and representing the map s, every observing operation
-    (Hnumber, wildcard Hfind iteration in both directions, Hnewref, Htagnewref) returns what S returns from s
-    and leaves the represented map unchanged.
-    Missing lemma (inv_step): the mutating operations hputelement / hdupdd / hdeldd / hdreuse, hcache / hisync and
-    hreopen preserve [inv] and commute with s_step on [abs]; this part rests on the R~M~S correspondence
-    (every generated history compares the library, the model and the map after each operation). *)
-Theorem dir_refines_map_partial : forall st s, inv st -> Permutation (abs st) s ->
+(** inv_step: every operation of a history (create / rewrite, duplicate, delete, reuse, the observers, the
+    reference allocators, cache switches, Hsync, close+reopen, a fresh Hopen) preserves the invariant [Inv]
+    (live descriptors well formed; tag tree, ref dynarrays and bit-vectors mirror the DD table; maxref bounds
+    every live ref; clean blocks equal their disk image; dirty blocks only while caching) and commutes with the
+    specification step: equal results (enumerations as the same entries, new refs accepted by S) and
+    [abs st'] a permutation of the specification map.  S is fed M's answer for a new reference ([feed]). *)
+Theorem inv_step : forall st s o st' rm s' rs,
+  rel st s -> m_step st o = (st', rm) -> s_step s (feed o rm) = (s', rs) -> rs <> RNoDomain ->
+  rel st' s' /\ res_agree o rm rs.
+Proof. exact inv_step_lemma. Qed.
+Print Assumptions inv_step.
+
+(** dir_refines_map (full): for every history that starts with Hopen(DFACC_CREATE, n) -- every block size, odd or
+    even, from the minimum up; caching off, on or toggled anywhere; refs at 1 and 65535 and after wrap-around;
+    base, special and user tags -- the model and the finite map agree operation by operation for as long as the
+    specification is inside its domain. *)
+Theorem dir_refines_map : forall n h st0 s0, run_agree st0 s0 (OOpen n :: h).
+Proof. exact dir_refines_map_lemma. Qed.
+Print Assumptions dir_refines_map.
+
+(** the hypotheses of find_enumerates_once / hnewref_fresh / htagnewref_fresh / hnumber_exact hold in every
+    reachable state, and the table represents the specification map *)
+Theorem reachable_inv : forall n h st0 s0 st s, run_states st0 s0 (OOpen n :: h) = (st, s, true) ->
+  index_ok st /\ maxref_ok st /\ tree_bits_ok st /\ no_free_tags st /\ Permutation (abs st) s.
+Proof. exact reachable_inv_lemma. Qed.
+Print Assumptions reachable_inv.
+
+(** the observers against the map, in any state satisfying the (weaker) invariant [inv] *)
+Theorem observers_refine_map : forall st s, inv st -> Permutation (abs st) s ->
   (forall t, obs_tag t = true -> m_step st (ONumber t) = (st, snd (s_step s (ONumber t)))) /\
   (forall t r, t <> DFTAG_NULL -> (t = DFTAG_WILDCARD \/ r = DFREF_WILDCARD) ->
      snd (m_step st (OFindall t r DF_FORWARD)) =
@@ -90,19 +108,34 @@ Theorem dir_refines_map_partial : forall st s, inv st -> Permutation (abs st) s 
   (forall t x st' v, mut_tag t = true -> m_step st (OTagnewref t x) = (st', RVal v) ->
      snd (s_step s (OTagnewref t v)) = ROk /\ abs st' = abs st).
 Proof. exact observers_refine_lemma. Qed.
-Print Assumptions dir_refines_map_partial.
+Print Assumptions observers_refine_map.
 
-(** reopen, PARTIAL (DD granularity; the byte encoding of DD blocks is C02's format theorem):
+(** reopen: from every state satisfying the invariant -- whatever the cache flag and the dirty flags -- Hclose
+    followed by Hopen reads back exactly the DD table in memory and rebuilds a tag tree satisfying the invariant. *)
+Theorem reopen_same_directory : forall st, Inv st ->
+  exists st', hreopen st = Some st' /\ Inv st' /\ m_slots st' = m_slots st /\ m_cache st' = true.
+Proof. exact hreopen_spec. Qed.
+Print Assumptions reopen_same_directory.
+
+(** cache_mode_irrelevant: with caching off, on, or toggled anywhere (Hcache / Hsync operations anywhere in the
+    history), the directory read back after close is the one of the history with those operations removed. *)
+Theorem cache_mode_irrelevant : forall n h st0 s0 st1 s1 st2 s2,
+  run_states st0 s0 (OOpen n :: h) = (st1, s1, true) ->
+  run_states st0 s0 (OOpen n :: filter (fun o => negb (is_cache_op o)) h) = (st2, s2, true) ->
+  exists r1 r2, hreopen st1 = Some r1 /\ hreopen st2 = Some r2 /\
+                m_slots r1 = m_slots st1 /\ m_slots r2 = m_slots st2 /\ Permutation (abs r1) (abs r2).
+Proof. exact cache_mode_irrelevant_lemma. Qed.
+Print Assumptions cache_mode_irrelevant.
+
+(** parse (serialize dir) = dir at DD granularity (the byte encoding of a DD block is C02's format theorem):
     flushing a table whose blocks are all dirty writes an image from which HTPstart's block walk reads back
-    exactly the table, for every number of blocks and every block size.
-    Missing: the invariant "a clean block equals its disk image" over all histories with caching off, on and
-    toggled (cache_mode_irrelevant); covered by the correspondence (close/reopen in every history). *)
-Theorem reopen_parse_serialize_partial : forall n m slots dhdr dslots,
+    exactly the table, for every number of blocks and every block size. *)
+Theorem reopen_parse_serialize : forall n m slots dhdr dslots,
   length dhdr = S m -> length slots = (S m * n)%nat -> length dslots = (S m * n)%nat ->
   let '(hs, ds) := sync_blocks n 0 (S m) (repeat true (S m)) slots dhdr dslots in
   read_blocks n hs ds = Some (slots, S m).
 Proof. exact reopen_parse_serialize_lemma. Qed.
-Print Assumptions reopen_parse_serialize_partial.
+Print Assumptions reopen_parse_serialize.
 
 (** Deleting with caching off reaches the disk: after HTPdelete (steps in the order of the C source, see
     Gen_DD.HTPdelete_calls) the slot written through to the file carries DFTAG_NULL. *)
@@ -117,6 +150,7 @@ Print Assumptions delete_persists_uncached.
     ref 65535 in use, so Hnewref is on its search path) and what the theorems say about it. *)
 Definition ex_hist : list op :=
   [OOpen 4; OCache 0; OPut 720 1 5; OPut 720 2 6; OPut 721 65535 7; ODup 17104 3 720 1; OPut 722 1 3; ODel 720 2].
+Definition abs_spec_of_ex : smap := Eval vm_compute in snd (fst (run_states m_empty [] ex_hist)).
 Definition ex_state_run : mst := fold_left (fun st o => fst (m_step st o)) ex_hist m_empty.
 Definition ex_state : mst := Eval vm_compute in ex_state_run.     (* the state as a literal record *)
 Example ex_state_reached : ex_state_run = ex_state.
@@ -148,6 +182,16 @@ Example ex_newref : snd (hnewref ex_state) = 2 /\ snd (htagnewref ex_state 720) 
                     hticount_dd ex_state 720 DFREF_WILDCARD = Some 2 /\
                     findall ex_state 9 0 0 0 0 DF_BACKWARD = [(722, 1, 3); (17104, 3, 5); (721, 65535, 7); (720, 1, 5); (30, 1, 92)].
 Proof. vm_compute. repeat split; reflexivity. Qed.
+Example ex_run_in_domain : run_states m_empty [] ex_hist = (ex_state, abs_spec_of_ex, true).
+Proof. vm_compute. reflexivity. Qed.
+Example ex_tree_bits_ok : tree_bits_ok ex_state /\ index_ok ex_state /\ maxref_ok ex_state.
+Proof. destruct (reachable_inv_lemma 4 (tl ex_hist) m_empty [] ex_state abs_spec_of_ex ex_run_in_domain) as (A & B & C & _). auto. Qed.
+Example ex_Inv : rel ex_state abs_spec_of_ex.
+Proof. exact (reachable_rel 4 (tl ex_hist) m_empty [] ex_state abs_spec_of_ex ex_run_in_domain). Qed.
+Example ex_cache_both_in_domain :
+  snd (run_states m_empty [] ex_hist) = true /\
+  snd (run_states m_empty [] (OOpen 4 :: filter (fun o => negb (is_cache_op o)) (tl ex_hist))) = true.
+Proof. vm_compute. split; reflexivity. Qed.
 Example ex_bv_wf : exists b, bv_new (-1) = Some b /\ bv_wf b.
 Proof. eexists. split; [reflexivity|]. exact (proj1 (bv_new_wf (-1) _ eq_refl)). Qed.
 Example ex_delete_uncached : m_cache ex_state = false /\ (exists st', htpdelete ex_state 1 = Some st').
